@@ -75,6 +75,10 @@ class Taint:
                 self.domain_names.add(p)
         # parameters that callers fill with streams (e.g. the dict of generators handed to generate_combinations)
         self.domain_names |= stream_params(db, model).get(fn.qualname, set())
+        # free variables of a nested function: what is tainted in the enclosing function is tainted here
+        if fn.parent is not None:
+            own = set(fn.params) | set(local_defs(fn))
+            self.domain_names |= {n for n in Taint(db, model, fn.parent).domain_names if n not in own}
         defs = local_defs(fn)
         changed = True
         while changed:
@@ -99,6 +103,8 @@ class Taint:
                 if e.attr == "_domain_":
                     return True
             return False
+        if isinstance(e, ast.Subscript):
+            return self._is_domain_expr(e.value)         # one of the streams held by a tainted container
         if isinstance(e, ast.BoolOp):
             return any(self._is_domain_expr(v) for v in e.values)
         if isinstance(e, ast.IfExp):
